@@ -242,6 +242,10 @@ def install(w):
     def _is_tuple(ex, st, args):
         return Val(mkb(z3.And(V.is_r(args[0].t), w.classes.isa(CLS(V.rid(args[0].t)), tuple))), bool)
 
+    @sf("is_list")
+    def _is_list(ex, st, args):
+        return Val(mkb(z3.And(V.is_r(args[0].t), w.classes.isa(CLS(V.rid(args[0].t)), list))), bool)
+
     @sf("is_dict")
     def _is_dict(ex, st, args):
         return Val(mkb(z3.And(V.is_r(args[0].t), w.classes.isa(CLS(V.rid(args[0].t)), dict))), bool)
